@@ -487,3 +487,211 @@ def run_keng(cases, d, per_shard):
         for (k, subs) in vflib.parse_nat_pairs(blocks[0] if blocks else ""):
             mism[k] = (cases[k][0], subs)
     return {"mismatches": mism, "errors": errors, "cases": len(cases)}
+
+
+# ------------------------------------------------------------------------------------------------ one shared run (C02 and C05 use it)
+def load_known(prop):
+    """open findings of a property: committed known_findings.json plus props/known_<prop>.proposed.json"""
+    out = [k for k in vflib.load_known() if k.get("property") == prop]
+    p = os.path.join(ROOT, "props", "known_%s.proposed.json" % prop)
+    if os.path.exists(p):
+        have = {k["id"] for k in out}
+        out += [k for k in json.load(open(p)) if k["id"] not in have]
+    return out
+
+
+def run_sqlite(tier, seed, corpus=None, histories=None, tag="main"):
+    """generate, K-sql, O-C02 on libsqlite3 (both pragmas), K-eng. Cached per (tree hash, tier, seed).
+    returns dict(rows, d, per_shard, idx_map, ksql, failures {(fk,row idx): failure}, keng, meta, error?)"""
+    sz = sizes(tier)
+    rc, out, binp = vflib.build_harness("hsqlite", ws=WS)
+    if rc != 0:
+        return {"error": "hsqlite build failed:\n" + out[-3000:]}
+    key = tree_hash(["/repo/crates/vespertide-core", "/repo/crates/vespertide-planner", "/repo/crates/vespertide-naming",
+                     "/repo/crates/vespertide-query", os.path.join(ROOT, "harness", "common"), os.path.join(ROOT, WS, "hsqlite"),
+                     os.path.join(ROOT, "coq", "m1", "Base"), os.path.join(ROOT, "coq", "m1", "Model"),
+                     os.path.join(ROOT, "coq", LAYER, "Model"), os.path.join(ROOT, "coq", LAYER, "Corr"),
+                     corpus or os.path.join(ROOT, "corpus", "sqlite"), os.path.join(ROOT, "tools", "sqlite_sqlparse.py"),
+                     os.path.abspath(__file__)])
+    d = os.path.join(CACHE, "sqliterun", "%s_%s_%s_%s" % (tag, key, tier, seed))
+    done = os.path.join(d, "result.json")
+    if os.path.exists(done):
+        res = json.load(open(done))
+        res["rows"] = [json.loads(l) for l in open(os.path.join(d, "cases.jsonl"))]
+        res["failures"] = {(bool(f["fk"]), f["row"]): f for f in res["failure_list"]}
+        res["cached"] = True
+        return res
+    for old in glob.glob(os.path.join(CACHE, "sqliterun", tag + "_*")):
+        shutil.rmtree(old, ignore_errors=True)
+    t0 = time.time()
+    rows, err = generate(tier, seed, d, corpus=corpus, histories=histories)
+    if err:
+        return {"error": err}
+    per = sz["per_shard"]
+    ksql = run_ksql(rows, d, per)
+    idx_map = [i for i in range(len(rows)) if i not in {u[0] for u in ksql["unparsed"]}]
+    H = by_history(rows)
+    failures, cases = [], []
+    executed = 0
+    for fk in (True, False):
+        for h, recs in H.items():
+            f, cats = oracle_c02_history(recs, fk)
+            executed += len(cats)
+            if f:
+                f = dict(f, fk=fk, row=recs[f["step"]]["_idx"], hist=h)
+                failures.append(f)
+            cases += eng_cases(recs, cats, fk)
+    keng = run_keng(cases, d, per)
+    keng["mismatches"] = {str(k): v for k, v in keng["mismatches"].items()}
+    res = {"d": d, "per_shard": per, "idx_map": idx_map, "ksql": ksql, "failure_list": failures, "keng": keng, "executed_migrations": executed,
+           "meta": json.load(open(os.path.join(d, "meta.json"))), "gen_s": round(time.time() - t0, 1), "cached": False}
+    json.dump(res, open(done, "w"), default=str)
+    res["rows"] = rows
+    res["failures"] = {(f["fk"], f["row"]): f for f in failures}
+    return res
+
+
+def history_of(rows, row_idx):
+    """the migrations of row_idx's history up to and including it (the replayable input)"""
+    h = rows[row_idx]["hist"]
+    return [r["plan"] for r in rows if r["hist"] == h and r["step"] <= rows[row_idx]["step"]]
+
+
+def nontrivial_count(rows):
+    """distinct migrations with >= 2 actions of >= 2 kinds, or >= 1 action on a baseline of >= 2 tables (by hash of baseline+plan)"""
+    seen = set()
+    for r in rows:
+        if (r["n_actions"] >= 2 and len(r["action_kinds"]) >= 2) or (r["n_actions"] >= 1 and r["n_tables"] >= 2):
+            seen.add(hashlib.sha1(json.dumps([r["baseline"], r["plan"]["actions"]], sort_keys=True).encode()).hexdigest())
+    return len(seen)
+
+
+def distribution(rows):
+    kinds, how, sizes_ = collections.Counter(), collections.Counter(), collections.Counter()
+    for r in rows:
+        for a in r["actions"]:
+            kinds[a["kind"]] += 1
+        how[r["how"]] += 1
+        sizes_[str(min(r["n_actions"], 10))] += 1
+    return {"action_kinds": dict(kinds), "migration_origin": dict(how), "plan_sizes": dict(sizes_)}
+
+
+def c02_check(tier, seed):
+    prop = "C02"
+    chk = vflib.Check(prop, tier, seed)
+    chk.assumptions = [
+        "tie: K-sql(sqlite) (gen_plan vs build_plan_queries(..).sqlite, statement by statement, parsed text with asserted round trip) and "
+        "K-eng-sqlite (Engine.exec over the model's statements vs libsqlite3 over the implementation's: catalog and first error position) "
+        "are evaluated inside Coq on every migration of every generated history",
+        "models are restricted to the sanity assumptions A1-A7 of DESIGN.md section 4.2 (evolutions are truncated at the first model set outside them)",
+        "the oracle stops a history at its first failure (later migrations would start from a drifted database)",
+        "C02_full_statement is refuted (C02_refuted); outside the classifiers of the recorded findings the claim rests on the proved lemmas "
+        "listed in coverage.theorems plus the libsqlite3 oracle on sampled histories",
+        "databases are empty (C05 covers populated ones); raw SQL actions are treated as no-ops (A4)"]
+    chk.cov["trusted_base"] = vflib.TRUSTED_COMMON + [
+        "libsqlite3 3.40.1 through Python's sqlite3 module is the real engine; catalog read-back through PRAGMA table_xinfo / index_list / index_info / "
+        "foreign_key_list and sqlite_master.sql (CHECK clauses, AUTOINCREMENT)",
+        "tools/sqlite_sqlparse.py (SQL text -> stmt; render(parse(s)) == s asserted for every statement)",
+        "modelled, not verified: Rust str::to_lowercase / trim for non-ASCII text; f64 printing (carried as rendered text); error messages (only kinds / positions compared)"]
+    vflib.proof_stage(chk, LAYER, prop)
+    res = run_sqlite(tier, seed)
+    if "error" in res:
+        rp = vflib.write_replay(prop, "correspondence:build", {"log": res["error"]})
+        chk.violation(rp, True)
+        return chk.finish()
+    rows = res["rows"]
+    chk.cov["evaluations"] = len(rows)
+    chk.cov["distinct_nontrivial"] = nontrivial_count(rows)
+    chk.cov["rule"] = ("histories grown by the real planner (plan_next_migration + revision fill) from generated evolutions of model sets inside A1-A7, "
+                       "half of them hand-extended with RenameTable / RenameColumn / explicit Add/RemoveConstraint / RawSql migrations, plus corpus witnesses; "
+                       "each migration is one case (baseline, plan); every history is executed on libsqlite3 with foreign_keys ON and OFF; non-trivial = "
+                       ">=2 actions of >=2 kinds, or a baseline of >=2 tables; distinct by hash of (baseline, actions)")
+    chk.cov["distribution"] = distribution(rows)
+    chk.cov["distribution"]["histories"] = res["meta"].get("histories")
+    chk.cov["distribution"]["evolutions_truncated_outside_A1_A7"] = res["meta"].get("truncated_outside_assumptions")
+    chk.cov["traces_validated_against_impl"] = res["executed_migrations"]
+    chk.cov["cached_run"] = res.get("cached", False)
+    sample = next((r for r in rows if r["n_actions"] >= 3 and r["how"] == "grown" and r["step"] >= 1), rows[0])
+    chk.cov["samples"] = [{"baseline": sample["baseline"], "plan": sample["plan"], "sqlite_sql": [a["sql"] for a in sample["actions"]]}]
+    ksql, keng = res["ksql"], res["keng"]
+    chk.cov["correspondences"] = {
+        "K-sql(sqlite)": {"cases": ksql["cases"], "mismatches": len(ksql["mismatches"]), "unparsed": len(ksql["unparsed"]), "shard_errors": len(ksql["errors"])},
+        "K-eng-sqlite": {"cases": keng["cases"], "mismatches": len(keng["mismatches"]), "shard_errors": len(keng["errors"]),
+                         "subchecks": "1 = exec vs libsqlite3 (catalog / first error position); 2 = catalog_of(believed post schema) vs real catalog agrees with the oracle's verdict"}}
+    failures = res["failures"]
+    known = [k for k in load_known(prop) if k.get("status") == "open"]
+    fail_rows = sorted({i for _, i in failures})
+    cls = classify(res["d"], res["idx_map"], res["per_shard"], fail_rows, [k["classifier"] for k in known]) if fail_rows else {}
+    if cls is None:
+        rp = vflib.write_replay(prop, "theorem:classifiers", {"note": "Model/Known.v classifiers did not evaluate"})
+        chk.violation(rp, True)
+        cls = {}
+    covered = collections.Counter()
+    unexplained = []
+    for (fk, i), f in sorted(failures.items(), key=lambda kv: (kv[0][1], kv[0][0])):
+        hits = [k for k in known if cls.get(i, {}).get(k["classifier"]) and f["kind"] in k.get("failure_kinds", [f["kind"]])]
+        if hits:
+            for k in hits:
+                covered[k["id"]] += 1
+        else:
+            unexplained.append(((fk, i), f))
+    for k in known:
+        wtag = "corpus:" + os.path.basename(k.get("witness", ""))
+        wit = [f for (fk, i), f in failures.items() if rows[i]["tag"] == wtag]
+        if wit or covered[k["id"]]:
+            chk.known_finding(k["id"], k["what"])
+        else:
+            chk.notes.append("NOTE stale known finding %s: its witness no longer fails" % k["id"])
+    kinds = collections.Counter(f["kind"] for f in failures.values())
+    chk.cov["theorem_coverage"] = {"histories_x_pragmas": 2 * len({r["hist"] for r in rows}), "oracle_failures": len(failures), "by_kind": dict(kinds),
+                                   "classified_known": dict(covered), "unexplained": len(unexplained)}
+    seen_rows = set()
+    for (fk, i), f in unexplained:
+        if i in seen_rows or len(seen_rows) >= 5:
+            continue
+        seen_rows.add(i)
+        rp = vflib.write_replay(prop, "oracle", {"tier": tier, "seed": seed, "foreign_keys": "ON" if fk else "OFF", "failure": {k: v for k, v in f.items() if k != "row"},
+                                                 "input": {"history": history_of(rows, i)}, "sqlite_sql": [a["sql"] for a in rows[i]["actions"]],
+                                                 "replay_cmd": "./vf replay %s <this file>" % prop})
+        chk.violation(rp)
+    broken = []
+    if ksql["mismatches"] or ksql["unparsed"] or ksql["errors"]:
+        broken.append("K-sql(sqlite)")
+    if keng["mismatches"] or keng["errors"]:
+        broken.append("K-eng-sqlite")
+    if broken and not unexplained:
+        payload = {"tier": tier, "seed": seed, "broken": broken, "shard_errors": (ksql["errors"] + keng["errors"])[:2], "unparsed": ksql["unparsed"][:3]}
+        first = (ksql["mismatches"] or [u[0] for u in ksql["unparsed"]] or [v[0] for v in keng["mismatches"].values()] or [None])[0]
+        if first is not None:
+            payload["first_differing_case"] = {"history": history_of(rows, first)}
+            payload["implementation_sql"] = [a["sql"] for a in rows[first]["actions"]]
+        rp = vflib.write_replay(prop, "correspondence:" + "+".join(broken), payload)
+        chk.violation(rp, True)
+    return chk.finish()
+
+
+def replay_history(prop, path, oracle):
+    """re-run the implementation-side oracle on the history stored in a replay file"""
+    rp = json.load(open(path))
+    inp = rp.get("input") or rp.get("first_differing_case")
+    if not inp or "history" not in inp:
+        print("replay file has no input (%s)" % rp.get("kind"))
+        print(json.dumps(rp, indent=1)[:3000])
+        return 1
+    d = os.path.join(CACHE, "replay_%s" % prop)
+    shutil.rmtree(d, ignore_errors=True)
+    os.makedirs(os.path.join(d, "corpus"))
+    json.dump({"history": inp["history"]}, open(os.path.join(d, "corpus", "replay.json"), "w"))
+    rows, err = generate("quick", 1, os.path.join(d, "out"), corpus=os.path.join(d, "corpus"), histories=0)
+    if err:
+        print(err)
+        return 1
+    bad = 0
+    for fk in (True, False):
+        f = oracle(rows, fk)
+        print("foreign_keys=%s: %s" % ("ON" if fk else "OFF", json.dumps(f, default=str)[:1500] if f else "ok"))
+        if f:
+            bad = 1
+    if bad:
+        print("VIOLATION property=%s replay=%s" % (prop, path))
+    return bad
